@@ -14,6 +14,12 @@ CHECKS = {
  "C14": dict(technique="TLA+ ownership ghost state in TreeMap (stored / dead object identities) model-checked by TLC; destroy-notifier calls recorded per API call on the real PTree and validated by TLC (TreeTrace[own])",
              text="Every notifier call is an event that must equal, as a duplicate-free set, what the P-spec action destroys; removal of 0/1/2-child nodes at every position is guaranteed by the edge cover of the shape graph for all three tree types; without notifiers user blocks must stay byte-identical.",
              design_ref="3 C14", note="Trusted: " + TB + "; identity = one heap block per inserted key / value."),
+ "C15": dict(technique="TLA+ P-specs HashTable / PList model-checked by TLC; every edge of their bounded graphs replayed on the real containers with keys instantiated from pointer-pattern classes (NULL, all-ones, one bucket, INT_MAX-adjacent low words, negative low words); full observations validated by TLC (ContTrace); UB observed through the UBSan build",
+             text="The reference models are explicit TLA+ specs; TLC enumerates all histories of the bounded models and each transition is executed on the real PHashTable/PList for every key class; after every operation lookup of every key, keys/values bags, lookup_by_value (with and without comparator), list content/length/last are validated by TLC against the spec state.",
+             design_ref="3 C15", note="Trusted: " + TB + "; UBSan/ASan as the observation channel for undefined behaviour; values never equal the (ppointer)-1 marker."),
+ "C08": dict(technique="TLA+ P-spec ShmBufAbs (bounded FIFO) refined by I-spec ShmBufRing (positions, modulus, split copies) proved by TLC for capacities 1..4; every edge of the ring graph replayed on a real PShmBuffer through several handles; sequential traces validated by TLC (ShmBufTrace); concurrent producer/consumer histories (threads and processes) checked for linearizability by TLC (ShmBufLin)",
+             text="TLC proves the ring algorithm refines the FIFO for every operation sequence, length 0..cap+1 and content over capacities 1..4, and each of those transitions is executed on the real buffer (ring positions compared through an independent PShm handle); random histories for capacities up to 300 with handles opened with equal, larger and zero size arguments; concurrent histories from 1-4 producers x 1-4 consumers in threads and in forked processes must have a linearization as one FIFO.",
+             design_ref="3 C08", note="Trusted: " + TB + "; one process-shared atomic sequence number orders call/ret events; the >INT_MAX capacity probe of DESIGN.md is not built."),
 }
 NA = {
  "C17": "pure encode/decode fidelity against the platform's inet_pton/inet_ntop over all addresses: no state, transitions or histories for a TLA+ specification to constrain (DESIGN.md section 5)",
